@@ -943,7 +943,23 @@ def frac_text(x):
 # =====================================================================
 Q1 = [1, 2, 3, 4, 5, 18]          # X H T RZ U3 Tdg
 Q2 = [6, 7, 8, 9]                 # CNOT CZ RZZ SWAP
-NPAR = {1: 0, 2: 0, 3: 0, 4: 1, 5: 3, 18: 0, 6: 0, 7: 0, 8: 1, 9: 0, 10: 0}
+NPAR = {1: 0, 2: 0, 3: 0, 4: 1, 5: 3, 18: 0, 6: 0, 7: 0, 8: 1, 9: 0, 10: 0,
+        11: 0, 12: 0, 13: 0, 14: 0}
+
+
+def rdx(nq):
+    """a width (qubits) or a list of radixes -> list of radixes"""
+    return [2] * nq if isinstance(nq, int) else list(nq)
+
+
+def g_radixes(rng, nq, pmixed=0.25):
+    """qubits, or (a quarter of the circuits) qubits and qutrits: gates 11
+    (shift), 12 (CSUM), 13/14 (constant unitaries on qubit x qutrit, which the
+    DEFAULT collection filter of ForEachBlockPass selects) become possible and
+    the radixes of sub-circuits / sub-models differ from qudit to qudit"""
+    if rng.random() >= pmixed:
+        return [2] * nq
+    return [3 if rng.random() < 0.4 else 2 for _ in range(nq)]
 
 
 def g_params(rng, gid):
@@ -951,21 +967,35 @@ def g_params(rng, gid):
 
 
 def g_plain_op(rng, nq, max_arity=3):
+    rad = rdx(nq)
+    nq = len(rad)
     ar = rng.choice([1, 1, 2, 2, 3]) if nq >= 3 and max_arity >= 3 else \
         rng.choice([1, 2]) if nq >= 2 and max_arity >= 2 else 1
-    gid = rng.choice(Q1) if ar == 1 else rng.choice(Q2) if ar == 2 else 10
     loc = tuple(rng.sample(range(nq), ar))
+    rs = tuple(rad[q] for q in loc)
+    if ar == 3 and rs != (2, 2, 2):
+        ar, loc, rs = 2, loc[:2], rs[:2]
+    if ar == 1:
+        gid = rng.choice(Q1) if rs == (2,) else 11
+    elif ar == 2:
+        gid = {(2, 2): None, (3, 3): 12, (2, 3): 13, (3, 2): 14}[rs]
+        if gid is None:
+            gid = rng.choice(Q2)
+    else:
+        gid = 10
     return (gid, g_params(rng, gid), loc)
 
 
 def g_body(rng, k, parametric=False):
+    rad = rdx(k)
     n = rng.randint(1, 4)
-    ops = [('a', 0, g_plain_op(rng, k)) for _ in range(n)]
-    if parametric and not any(spec_nparams(o[2]) for o in ops):
+    ops = [('a', 0, g_plain_op(rng, rad)) for _ in range(n)]
+    qubits = [q for q, r in enumerate(rad) if r == 2]
+    if parametric and qubits and not any(spec_nparams(o[2]) for o in ops):
         gid = rng.choice([4, 5])
         ops.insert(rng.randint(0, len(ops)),
-                   ('a', 0, (gid, g_params(rng, gid), (rng.randrange(k),))))
-    return {'radixes': [2] * k, 'ops': ops}
+                   ('a', 0, (gid, g_params(rng, gid), (rng.choice(qubits),))))
+    return {'radixes': rad, 'ops': ops}
 
 
 def spec_nparams(ospec):
@@ -994,42 +1024,47 @@ def g_reparam(rng):
 
 def g_circuit(rng, nq, nops, pblock=0.0, nested=0.1, preparam=0.35,
               parametric=0.5):
-    """`preparam`: probability that the finished circuit is re-parameterised
+    """`nq`: a number of qubits or a list of radixes.
+    `preparam`: probability that the finished circuit is re-parameterised
     from the outside (set_params / set_param), that a block operation is given
     its own parameters, and that a block re-uses the CircuitGate object of an
     earlier block with other parameters - in all three cases the operation's
     parameters differ from those frozen inside its CircuitGate."""
+    rad = rdx(nq)
+    nq = len(rad)
     ops = []
     bodies = []
     for _ in range(nops):
         if rng.random() < pblock:
             k = rng.randint(1, min(3, nq))
-            same = [b for b in bodies if len(b['radixes']) == k]
+            loc = rng.sample(range(nq), k)
+            if rng.random() < 0.7:
+                loc.sort()
+            brad = [rad[q] for q in loc]
+            same = [b for b in bodies if b['radixes'] == brad]
             if same and rng.random() < preparam * 0.7:
                 body = rng.choice(same)        # the same CircuitGate object again
             else:
-                body = g_body(rng, k, rng.random() < parametric)
+                body = g_body(rng, brad, rng.random() < parametric)
                 if rng.random() < nested and k >= 2:
-                    inner = g_body(rng, 1, rng.random() < parametric)
-                    io = ('B', inner, (rng.randrange(k),))
+                    iq = rng.randrange(k)
+                    inner = g_body(rng, [brad[iq]], rng.random() < parametric)
+                    io = ('B', inner, (iq,))
                     if rng.random() < preparam:
                         io = io + (g_outer(rng, inner),)
                     body['ops'].append(('a', 0, io))
                 bodies.append(body)
-            loc = rng.sample(range(nq), k)
-            if rng.random() < 0.7:
-                loc.sort()
             o = ('B', body, tuple(loc))
             if rng.random() < preparam:
                 o = o + (g_outer(rng, body),)
         else:
-            o = g_plain_op(rng, nq)
+            o = g_plain_op(rng, rad)
         r = rng.random()
         if r < 0.7 or not ops:
             ops.append(('a', 0, o))
         else:
             ops.append(('i', rng.randint(-1, len(ops)), o))
-    cs = {'radixes': [2] * nq, 'ops': ops}
+    cs = {'radixes': rad, 'ops': ops}
     if rng.random() < preparam:
         cs['reparam'] = g_reparam(rng)
     return cs
@@ -1049,9 +1084,13 @@ def g_edges(rng, n):
 def g_pdata(rng, nq):
     """spec of the edits applied to PassData(circuit) before the run"""
     acts = []
+    rad = rdx(nq)
+    nq = len(rad)
     n = nq + rng.choice([0, 0, 1, 2])
     gs = rng.choice([[5, 6], [1, 2, 3, 4, 6], [5, 7, 10], [2, 6, 9, 5], [6]])
-    acts.append(('model', n, g_edges(rng, n), gs, [2] * n))
+    if rad != [2] * nq:
+        gs = rng.choice([gs, gs + [12, 13], [11, 12, 13, 14, 6], [14, 5]])
+    acts.append(('model', n, g_edges(rng, n), gs, rad + [2] * (n - nq)))
     if rng.random() < 0.6:
         pl = rng.sample(range(n), nq)
         if rng.random() < 0.5:
@@ -1069,25 +1108,34 @@ def g_pdata(rng, nq):
     acts.append(('put', 'bits', [rng.randint(0, 1) for _ in range(rng.randint(0, 5))]))
     if rng.random() < 0.5:
         acts.append(('put', 'ForEachBlockPass_pass_down_x', rng.randint(0, 9)))
-    if rng.random() < 0.5:
+    r = rng.random()
+    if r < 0.4:
         acts.append(('put', 'ForEachBlockPass_specific_pass_down_y',
                      {i: [i, 7] for i in rng.sample(range(5), 3)}))
+    elif r < 0.55:
+        # a LIST: `i in value` is membership, `value[i]` is indexing
+        acts.append(('put', 'ForEachBlockPass_specific_pass_down_y',
+                     [rng.randint(0, 4) for _ in range(rng.randint(1, 4))]))
     return acts
 
 
 def g_top_leaf(rng, lid, nq):
+    rad = rdx(nq)
+    nq = len(rad)
     acts = [('push', TRACE_KEY, lid)]
     r = rng.random()
-    if r < 0.12:
+    if r < 0.09:
         pass
+    elif r < 0.12:      # the pass replaces the whole circuit (blocks included)
+        acts.append(('setcirc', g_circuit(rng, rad, rng.randint(0, 4), pblock=0.4)))
     elif r < 0.4:
-        acts.append(('append', g_plain_op(rng, nq)))
+        acts.append(('append', g_plain_op(rng, rad)))
     elif r < 0.46:
         acts.append(('poplast',))
     elif r < 0.5:       # a parameter-tuning pass: blocks keep their gates
         acts.append(('reparam', rng.randint(1, 900), rng.randint(0, 6000)))
     elif r < 0.56:
-        acts.append(('insert', rng.choice([0, -1, 1, 5]), g_plain_op(rng, nq)))
+        acts.append(('insert', rng.choice([0, -1, 1, 5]), g_plain_op(rng, rad)))
     elif r < 0.62:
         acts.append(('imap', rng.sample(range(nq), nq)))
     elif r < 0.68:
@@ -1106,7 +1154,8 @@ def g_top_leaf(rng, lid, nq):
         acts.append(('put', rng.choice(['u1', 'u2', 'calculate_error_bound']),
                      rng.choice([0, 1, 5, 'a', None, [1, 2]])))
     elif r < 0.93:
-        acts.append(('del', rng.choice(['u1', 'u2'])))
+        # (without 'bits' / 'c1' the harness predicates raise)
+        acts.append(('del', rng.choice(['u1', 'u2', 'u1', 'u2', 'bits', 'c1'])))
     elif r < 0.97:
         acts.append(('incr', 'u3', rng.randint(1, 3)))
     else:
@@ -1147,7 +1196,8 @@ def g_body_leaf(rng, lid):
 
 class CaseGen:
     def __init__(self, rng, nq):
-        self.rng, self.nq = rng, nq
+        self.rng, self.rad = rng, rdx(nq)
+        self.nq = len(self.rad)
         self.leaves = {}
         self.conds, self.collects, self.rfilts = {}, {}, {}
         self.min_pf = 99      # fewest branches of a pick_first ParallelDo
@@ -1156,7 +1206,7 @@ class CaseGen:
     def leaf(self, body):
         lid = len(self.leaves)
         self.leaves[lid] = (g_body_leaf(self.rng, lid) if body
-                            else g_top_leaf(self.rng, lid, self.nq))
+                            else g_top_leaf(self.rng, lid, self.rad))
         return ('leaf', lid)
 
     def incr_leaf(self, key):
@@ -1241,7 +1291,9 @@ class CaseGen:
             pf = rng.random() < 0.35
             if pf:
                 self.min_pf = min(self.min_pf, n)
-            return ('par', ws, self.cond(True), pf)
+            # less_than is called by the pass itself (not inside a job): at the
+            # top level it may be scripted
+            return ('par', ws, self.cond(worker), pf)
         return self.foreach(depth - 1)
 
     def foreach(self, depth, calc=None, rfilter=None, collect=None, body=None):
@@ -1296,7 +1348,7 @@ NAMED = ['always', 'less-than', 'less-than-multi', 'less-than-many',
 
 
 def gen_control_case(rng):
-    nq = rng.randint(1, 4)
+    nq = g_radixes(rng, rng.randint(1, 4))
     g = CaseGen(rng, nq)
     tree = g.tree(rng.randint(2, 4))
     circ = g_circuit(rng, nq, rng.randint(0, 6), pblock=0.25)
@@ -1304,7 +1356,7 @@ def gen_control_case(rng):
 
 
 def gen_foreach_case(rng, named=None, calc=None):
-    nq = rng.randint(2, 5)
+    nq = g_radixes(rng, rng.randint(2, 5))
     g = CaseGen(rng, nq)
     rf = ('named', named) if named else None
     fe = g.foreach(rng.randint(0, 2), calc=calc, rfilter=rf)
@@ -2053,18 +2105,19 @@ def oracle_foreach(ck, rng, n, tables):
     import bqskit.runtime.worker as W
     for it in range(n):
         nq = rng.randint(2, 4)
+        rad = g_radixes(rng, nq)
         heavy = it % 3 == 0
-        cs = g_circuit(rng, nq, rng.randint(2, 7), pblock=0.6, nested=0.0,
+        cs = g_circuit(rng, rad, rng.randint(2, 7), pblock=0.6, nested=0.0,
                        preparam=0.9 if heavy else 0.3,
                        parametric=1.0 if heavy else 0.5)
         circuit = mk_circ(cs)
         data = PassData(circuit)
-        pd = [a for a in g_pdata(rng, nq) if a[0] != 'error']
+        pd = [a for a in g_pdata(rng, rad) if a[0] != 'error']
         for a in pd:
             apply_act(a, circuit, data)
         name = NAMED[it % len(NAMED)]
         width = rng.choice([None, None, 1, 2, 3])
-        if width is not None and width <= nq:
+        if width is not None and width <= nq and rad == [2] * nq:
             col_spec = ('arity', width)
         else:
             width = None
@@ -2125,6 +2178,13 @@ def oracle_foreach(ck, rng, n, tables):
                 body_fails = True
             exp.append((old_sub, sub))
         ck.bump('oracle_foreach_blocks_with_own_params', str(min(stale, 3)))
+        # a block-specific pass-down value is documented as a dict; with a LIST
+        # `i in value` is membership and `value[i]` may be out of range
+        for a in pd:
+            if (a[0] == 'put' and a[1].startswith('ForEachBlockPass_specific_')
+                    and isinstance(a[2], list)):
+                if any(i in a[2] and i >= len(a[2]) for i in range(len(sel))):
+                    body_fails = True
         if out != 'ok':
             if not body_fails:
                 ck.violation(
@@ -2535,6 +2595,8 @@ def run(ck):
         ck.count((case['kind'], t_tree(case['tree']), json.dumps(case['circ']),
                   tuple(case['script'])), nontrivial=len(log) >= 1)
         ck.bump('outcomes', case['kind'] + ':' + ('ok' if out == 'ok' else 'raised'))
+        ck.bump('radixes', ('qubits' if set(case['circ']['radixes']) <= {2}
+                            else 'mixed') + ':' + ('ok' if out == 'ok' else 'raised'))
         ck.bump('trace_len', str(min(len(log), 12)))
         ck.coverage['traces_validated_against_impl'] += 1
         d = compare_case(case, rep, out, log, left, circuit, data)
